@@ -29,7 +29,7 @@ BASE_TRUSTED = [
 class Spec:
     def __init__(self, pid, prop_file, harness=None, overlay=None, args_quick=(), args_thorough=(),
                  args_search=(), race=False, assumptions=(), modelled=(), extra_targets=(),
-                 harness_timeout=900, harness_env=None, post=None):
+                 harness_timeout=900, harness_env=None, post=None, thorough_extra=()):
         self.pid = pid
         self.prop_file = prop_file          # e.g. Props/C18.v
         self.harness = harness              # harness directory name under /verif/harness
@@ -44,6 +44,7 @@ class Spec:
         self.harness_timeout = harness_timeout
         self.harness_env = harness_env or {}
         self.post = post                    # optional hook(ctx) -> list of extra failures
+        self.thorough_extra = list(thorough_extra)   # [(harness, overlay, args, race)] run in the thorough tier only
 
 
 def parse_assumptions(out):
@@ -141,9 +142,10 @@ def run(spec, tier, seed, replay=None):
     args = spec.args_quick if tier == "quick" else (spec.args_thorough or spec.args_quick)
     harness_runs = []
 
-    def harness_round(args, seed, tag):
+    def harness_round(args, seed, tag, hname=None, hoverlay=None, hrace=None):
         nonlocal evaluated_in_coq
-        ok, binp, blog = vlib.build_harness(spec.harness, spec.overlay, race=spec.race)
+        ok, binp, blog = vlib.build_harness(hname or spec.harness, spec.overlay if hoverlay is None else hoverlay,
+                                            race=spec.race if hrace is None else hrace)
         if not ok:
             problems.append({"kind": "harness-build", "what": "the correspondence harness no longer builds against /repo",
                              "log": blog[-3000:]})
@@ -178,6 +180,9 @@ def run(spec, tier, seed, replay=None):
 
     if spec.harness:
         summ = harness_round(args, seed, "main")
+    if tier == "thorough":
+        for k, (hn, hov, hargs, hrace) in enumerate(spec.thorough_extra):
+            harness_round(list(hargs), seed, "extra%d" % k, hname=hn, hoverlay=hov, hrace=hrace)
 
     failures = []
     for s in harness_runs:
